@@ -341,6 +341,54 @@ def check_bound_kind(ctx, fi, rule='R-CAP/bound-kind'):
         elif not v_elem and v_count and b_elem and not b_count:
             verdict = ('counts', 'the largest entry')
         judged.setdefault(name, []).append((st, verdict, bound))
+    # a whole array cast at once: X.astype(choose_int_dtype((lo, B)))
+    for c in ast.walk(fi.node):
+        if not (isinstance(c, ast.Call) and isinstance(
+                c.func, ast.Attribute) and c.func.attr == 'astype'
+                and len(c.args) == 1):
+            continue
+        sd = backward_slice(fi, c.args[0])
+        bound = None
+        for c2 in list(sd.calls) + [c.args[0]]:
+            if not isinstance(c2, ast.Call):
+                continue
+            f = c2.func
+            nm = f.id if isinstance(f, ast.Name) else getattr(f, 'attr', '')
+            if nm == 'choose_int_dtype' and c2.args:
+                bound = c2.args[0]
+        if bound is None:
+            continue
+        # positions in an array (np.where(m)[0], argsort, arange, ...) are
+        # bounded by its length: counts, whatever the array holds
+        if any(isinstance(x, ast.Call) and getattr(
+                x.func, 'attr', getattr(x.func, 'id', None)) in (
+                    'where', 'nonzero', 'flatnonzero', 'argwhere',
+                    'argsort', 'arange', 'searchsorted', 'argmax',
+                    'argmin', 'cumsum', 'bincount')
+               for x in ast.walk(c.func.value)):
+            continue
+        # ... and so are the index arrays of a sparse matrix object
+        try:
+            from ..core.defuse import Expander, term_contains
+            from ..core.cfg import cfg_of as _cfg_of
+            _nodes = list(_cfg_of(fi).node_of_expr(c))
+            _t = Expander(fi).expand(c.func.value,
+                                     _nodes[0].id if _nodes else None)
+            if term_contains(_t, lambda x: isinstance(x, tuple) and x
+                             and x[0] == 'attr' and x[-1] in (
+                                 'indices', 'indptr', 'row', 'col')):
+                continue
+        except Exception:
+            pass
+        b_elem, b_count, _ = _kinds(fi, bound)
+        v_elem, v_count, _ = _kinds(fi, c.func.value)
+        verdict = None
+        if v_elem and not b_elem and b_count:
+            verdict = ('values', 'the number of entries')
+        elif not v_elem and v_count and b_elem and not b_count:
+            verdict = ('counts', 'the largest entry')
+        judged.setdefault(f'astype@{unparse(c.func.value)[:30]}',
+                          []).append((c, verdict, bound))
     for name, items in sorted(judged.items()):
         n += 1
         ctx.touch(fi)
@@ -483,4 +531,96 @@ def check_index_cast_to_input_dtype(ctx, fi,
                  f'`{a.value.id}`: that type was sized for the input\'s '
                  'values, the result\'s values (positions along the other '
                  'axis after a transposition) wrap around in it')
+    return n
+
+
+def check_capacity_predicates(ctx, fi, rule='R-CAP/fits-predicate'):
+    """where an integer type is chosen by comparing a quantity with the
+    capacity of a candidate (`np.iinfo(c).max`, `2**np.iinfo(c).bits`), the
+    comparison admits the narrow type at most up to quantity == capacity
+    (2**bits): that is the most generous correct reading (the quantity is a
+    count of slices, the stored indexes run to count - 1).  A predicate
+    that admits capacity + 1 (`n - 1 <= 2**bits`, `n <= iinfo.max + 2`)
+    stores an index that wraps to 0.  Decided as a linear inequality over
+    the atoms CAP = iinfo.max + 1 and the quantity."""
+    from ..core.cfg import cfg_of
+    from ..core.defuse import rd_of, Expander
+    from ..core import poly as P
+    from ..core import terms as T
+    cfg = cfg_of(fi)
+    rd = rd_of(fi)
+    src = ast.unparse(fi.node)
+    if 'iinfo' not in src:
+        return 0
+    ex = Expander(fi)
+    CAP = ('CAP',)
+
+    def is_iinfo(t):
+        return isinstance(t, tuple) and t and t[0] == 'call' \
+            and T.call_name(t) == 'iinfo'
+
+    def atoms(t):
+        if not (isinstance(t, tuple) and t):
+            return None
+        if t[0] == 'attr' and t[2] == 'max' and (
+                is_iinfo(t[1]) or any(is_iinfo(a) for a in (
+                    t[1][1] if t[1][0] == 'phi' else ()))):
+            return P._add(P.atom(CAP), P.const(1), -1)
+        if t[0] == 'binop' and t[1] == 'Pow' and t[2] == ('const', '2') \
+                and isinstance(t[3], tuple) and t[3][0] == 'attr' \
+                and t[3][2] == 'bits':
+            return P.atom(CAP)
+        if t[0] == 'call' and T.call_name(t) in ('max', 'round', 'int',
+                                                 'ceil') and t[2]:
+            # max(0, x): the clamp from below does not matter here
+            args = [a for a in t[2] if a != ('const', '0')]
+            if len(args) == 1:
+                return P.poly(args[0], atoms)
+        return None
+
+    capm = ((CAP, 1),)
+    n = 0
+    for node in cfg.nodes:
+        if node.id not in rd.live or node.kind not in ('if', 'while'):
+            continue
+        for c in ast.walk(node.ast.test):
+            if not (isinstance(c, ast.Compare) and len(c.ops) == 1
+                    and isinstance(c.ops[0], (ast.Lt, ast.LtE, ast.Gt,
+                                              ast.GtE))):
+                continue
+            try:
+                a = P.poly(ex.expand(c.left, node.id), atoms)
+                b = P.poly(ex.expand(c.comparators[0], node.id), atoms)
+            except Exception:
+                continue
+            a_cap, b_cap = capm in a, capm in b
+            if a_cap == b_cap:
+                continue
+            op = c.ops[0]
+            if a_cap:       # capacity OP quantity  ->  quantity OP' cap
+                a, b = b, a
+                op = {ast.Lt: ast.Gt, ast.LtE: ast.GtE, ast.Gt: ast.Lt,
+                      ast.GtE: ast.LtE}[type(op)]()
+            # a: quantity side, b: capacity side; the narrow type is used
+            # for a < b, a <= b, not (a >= b), not (a > b)
+            strict = isinstance(op, (ast.Lt, ast.GtE))
+            admitted = P._add(b, P.const(1), -1) if strict else b
+            # a = q + k with q one atom of coefficient 1
+            k = a.get((), 0)
+            rest = {m: v for m, v in a.items() if m != ()}
+            if len(rest) != 1 or list(rest.values())[0] != 1:
+                continue
+            d = P._add(P._add(admitted, P.const(k), -1), P.atom(CAP), -1)
+            if any(m != () for m in d):
+                continue
+            n += 1
+            over = d.get((), 0)
+            ok = over <= 0
+            ctx.touch(fi)
+            ctx.ob(rule, f'{fi.qual}:{unparse(c)[:50]}', fi.loc(c), ok,
+                   'the narrow type is admitted at most up to its '
+                   'capacity' if ok else
+                   f'`{unparse(c)[:60]}` admits the candidate type for a '
+                   f'quantity of capacity + {over} (2**bits + {over}): the '
+                   'largest index then does not fit and wraps around')
     return n
